@@ -77,7 +77,8 @@ def rank_function(prog, backbone):
         except Flow as fl:
             if fl.kind == "raise":
                 return "RAISE"
-            raise
+            if fl.kind != "continue":  # a guard clause that goes on to the next atom ends this atom's turn like falling off the end
+                raise
         return atom["refdistance"]
 
     return rank
